@@ -5,6 +5,19 @@ from ..gen import fx
 from .common import kv, cases, viol
 
 IDENT = streams.int_map_tok({i: i for i in range(256)})
+# non-identity, non-decreasing PWM maps: the fan then reads back a value that differs from the request (seed C04d:
+# the control loop continued from the read-back value instead of its own previous request)
+SCALE100 = streams.int_map_tok({i: (i * 100) // 255 for i in range(256)})
+
+
+def closed_map(r):
+    k = r.below(4)
+    if k <= 1:
+        return IDENT
+    if k == 2:
+        return SCALE100
+    q = r.pick([3, 8, 16, 51])
+    return streams.int_map_tok({i: (i // q) * q for i in range(256)})
 
 
 def gen_loop(r, tier):
@@ -40,7 +53,7 @@ def gen_closed(r, tier):
         loop = streams.loop_tok(r, kind)
         ops.append(f"#case closed kind={kind}")
         ns = 1 if lo > 0 else 0
-        ops.append(f"w.new kind=hwmon ns={ns} win=10 minp={lo} maxp={hi} startp={lo} avg=x408f400000000000 map={IDENT} {loop} "
+        ops.append(f"w.new kind=hwmon ns={ns} win=10 minp={lo} maxp={hi} startp={lo} avg=x408f400000000000 map={closed_map(r)} {loop} "
                    f"resp=id pwm={r.range(0,255)} rpm=900 origmode=2 origpwm=0")
         now = r.range(1, 10**12)
         tick = r.pick([50_000_000, 200_000_000, 200_000_000, 1_000_000_000, 2_000_000_000])
